@@ -455,12 +455,18 @@ func (fc *FuncCtx) callWithContract(fr *Frame, st *State, con *Contract, fn *ssa
 	switch {
 	case con.Pure:
 	case con.HasAssigns:
-		pats := con.Assigns
+		var pats []string
 		allFlag := false
-		for _, p := range pats {
+		for _, p := range con.Assigns {
 			if p == "all" {
 				allFlag = true
 			}
+			if p == "reachable" {
+				// the type-directed write set of this call: everything reachable from its arguments
+				fc.havocExternal(st, c)
+				continue
+			}
+			pats = append(pats, p)
 		}
 		if allFlag {
 			fc.havocAll(st)
